@@ -28,7 +28,7 @@ func writeManifest() {
 	}
 	sort.Strings(all)
 	var checks []map[string]any
-	var na []map[string]string
+	na := []map[string]string{}
 	for _, id := range all {
 		p, ok := props[id]
 		if !ok {
